@@ -104,7 +104,7 @@ func vhC20Conn() {
 	stream := verifNondetBytes("stream", verifParam("N", 6))
 	r := &vhReader{data: stream, seg: verifParam("SEG", 1) == 1}
 	var o vhConnOutcome
-	c := &Connection{callbacks: map[string]map[int]EventCallback{}, callbacksAll: map[int]EventCallback{}}
+	c := vhNewConn(nil, nil)
 	// Connection.Buffer with an initial buffer of arbitrary small capacity
 	bl := verifChoose("buflen", verifParam("BUFMAX", 3)+1)
 	var buf []byte
@@ -118,6 +118,13 @@ func vhC20Conn() {
 	}
 	verifAssume(eff >= 1)
 	c.SubscribeToAll(func(e Event) { o.events = append(o.events, e) })
+	if verifParam("TWICE", 0) == 1 {
+		// an earlier connection of the same Connection (a reconnect follows): the configured
+		// limit must still hold for the next one
+		_ = c.read(&vhReader{data: []byte(":\n\n")}, func(time.Duration) {})
+		o.events = nil
+		c.lastEventID = ""
+	}
 	o.err = c.read(r, func(time.Duration) {})
 	vhC20Check("C20/Conn", stream, eff, o.events, o.err, r.nread, true)
 }
